@@ -51,7 +51,11 @@ pub mod fmt {
 pub mod serde {
     use vstd::prelude::*;
     use crate::{Text, allowed};
-    pub trait Serializer: Sized { type Ok; type Error; }
+    pub trait Serializer: Sized {
+        type Ok; type Error;
+        /// part of serde's Serializer surface: text formats answer true, binary formats false (unconstrained here)
+        fn is_human_readable(&self) -> bool;
+    }
     pub trait Serialize: Text {
         fn serialize<S: Serializer>(&self, serializer: S) -> (r: core::result::Result<S::Ok, S::Error>)
             requires
